@@ -8,9 +8,9 @@ from pyvc.api import *
 AP = "evaluation.metrics.detection.ap"
 
 
-def build(P):
+def tp_fp_tasks(P, models=True):
+    """Ap._calculate_tp_fp: which results count, rank by rank (shared with C08, whose AP clause rests on it)"""
     idx = P.index
-    P.min_obligations = 60
     APC = idx.lookup(f"{AP}:Ap")
     RL = TSList(TReal())
 
@@ -18,30 +18,15 @@ def build(P):
         o = it.ctx.new_cell("obj", {}, APC)
         it.ctx.cell(o).update(fields)
         return o
-    # ---------------------------------------------------------------- precision / recall from the cumulative TP weights
-    P.verify(f"{AP}:Ap.get_precision_recall_list", name="Ap.get_precision_recall_list",
-             contract=Contract(
-                 f"{AP}:Ap.get_precision_recall_list", cut=False,
-                 params={"self": lambda it: make_ap(it, tp_list=RL.fresh(it.ctx, "tp_list"), num_ground_truth=TInt().fresh(it.ctx, "num_gt"))},
-                 locals={"precisions_list": RL, "recalls_list": RL},
-                 requires=E("ground_truth_count_not_negative", "self.num_ground_truth >= 0"),
-                 loops={1: LoopSpec(index="j", invariants=E(
-                     "lengths", "len(precisions_list) == len(self.tp_list) and len(recalls_list) == len(self.tp_list) and precisions_list is not recalls_list and "
-                                "not is_old(precisions_list) and not is_old(recalls_list)",
-                     "precision_so_far", "forall(k, 0, j, precisions_list[k] == self.tp_list[k] / (k + 1))",
-                     "recall_so_far", "forall(k, 0, j, recalls_list[k] == (self.tp_list[k] / self.num_ground_truth if self.num_ground_truth > 0 else 0))",
-                     "tp_list_untouched", "len(self.tp_list) == old(len(self.tp_list)) and forall(k, 0, len(self.tp_list), self.tp_list[k] == old(self.tp_list[k]))"))},
-                 ensures=E("one_point_per_rank", "len(result[0]) == len(self.tp_list) and len(result[1]) == len(self.tp_list)",
-                           "precision_is_cumulative_tp_over_rank", "forall(k, 0, len(self.tp_list), result[0][k] == self.tp_list[k] / (k + 1))",
-                           "recall_is_cumulative_tp_over_ground_truths", "forall(k, 0, len(self.tp_list), result[1][k] == (self.tp_list[k] / self.num_ground_truth if self.num_ground_truth > 0 else 0))")))
     # ---------------------------------------------------------------- which results count: cumulative TP weights and FP counts, rank by rank
     import z3 as _z3
     from pyvc.lemmas import running_total
     import contracts.C10 as C10
-    C10.models(P)
     OR = "evaluation.result.object_result"
-    P.model(ClassModel("DynamicObjectWithPerceptionResult", {"estimated_object": TSObj("DynamicObject"), "ground_truth_object": TSObj("DynamicObject", nullable=True)},
-                       repo_class=idx.lookup(f"{OR}:DynamicObjectWithPerceptionResult")))
+    if models:
+        C10.models(P)
+        P.model(ClassModel("DynamicObjectWithPerceptionResult", {"estimated_object": TSObj("DynamicObject"), "ground_truth_object": TSObj("DynamicObject", nullable=True)},
+                           repo_class=idx.lookup(f"{OR}:DynamicObjectWithPerceptionResult")))
     RES = TSObj("DynamicObjectWithPerceptionResult")
 
     def _cumsum(interp, args, kwargs, node):
@@ -77,9 +62,10 @@ def build(P):
     gt_, dt_ = running_total("cum_tp", real=True)
     gf_, df_ = running_total("cum_fp", real=True)
     nO = f"len({OBJ})"
-    named_thr = Contract("common.threshold:get_label_threshold", params={}, returns=Opt(TReal()),
-                         ensures=E("none_flag", "(result is None) == uf_bool('thr_none', semantic_label.label, target_labels, threshold_list)",
-                                   "value", "implies(result is not None, result == uf_real('thr', semantic_label.label, target_labels, threshold_list))"))
+    mk_named_thr = lambda T: Contract("common.threshold:get_label_threshold", params={}, returns=Opt(T),
+                                      ensures=E("none_flag", "(result is None) == uf_bool('thr_none', semantic_label.label, target_labels, threshold_list)",
+                                                "value", "implies(result is not None, result == uf_real('thr', semantic_label.label, target_labels, threshold_list))"))
+    named_thr = mk_named_thr(TReal())
     named_correct = Contract(f"{OR}:DynamicObjectWithPerceptionResult.is_result_correct", params={}, returns=TBool(),
                              requires=E("a_threshold", "matching_threshold is not None"),
                              ensures=E("named", "result == uf_bool('correct', self, matching_mode, opt_value(matching_threshold))"))
@@ -89,23 +75,54 @@ def build(P):
                "entries_so_far", f"forall(k, 0, i, tp_list[k] == {tpw('k')} and fp_list[k] == {fpw('k')})",
                "entries_to_come_are_zero", f"forall(k, i, {nO}, tp_list[k] == 0 and fp_list[k] == 0)",
                "input_untouched", f"len({OBJ}) == old(len({OBJ})) and forall(k, 0, {nO}, {OBJ}[k] is old({OBJ}[k]))")
-    mk_ap2 = lambda it: make_ap(it, num_ground_truth=TInt().fresh(it.ctx, "num_gt"), target_labels=Opt(TSList(AL)).fresh(it.ctx, "targets"),
-                                matching_mode=TEnum(MM).fresh(it.ctx, "mode"), matching_threshold_list=Opt(TSList(TReal())).fresh(it.ctx, "thresholds"),
-                                objects_results_num=TInt().fresh(it.ctx, "n_results"))
-    P.verify(f"{AP}:Ap._calculate_tp_fp", name="Ap._calculate_tp_fp",
-             contract=Contract(f"{AP}:Ap._calculate_tp_fp", cut=False,
-                               params={"self": mk_ap2, "tp_metrics": lambda it: it.ctx.new_cell("obj", {}, TPA), OBJ: TSList(RES)},
-                               locals={"tp_list": RL, "fp_list": RL, "matching_threshold_": Opt(TReal()), "#comp1": TReal(), "#comp2": TReal()},
-                               requires=E("some_results_and_their_number_recorded", f"{nO} > 0 and self.objects_results_num == {nO}"),
-                               loops={1: LoopSpec(index="i", invariants=inv_tp)},
-                               ensures=E("one_entry_per_rank", f"len(result[0]) == {nO} and len(result[1]) == {nO}",
-                                         "cumulative_tp_weight_of_the_correct_results_judged_at_the_threshold_of_the_ground_truths_label",
-                                         f"result[0][0] == {tpw('0')} and forall(k, 0, {nO} - 1, result[0][k + 1] == result[0][k] + {tpw('k + 1')})",
-                                         "incorrect_results_counted_from_the_first_rank", f"result[1][0] == {fpw('0')}",
-                                         "cumulative_count_of_the_incorrect_results", f"forall(k, 0, {nO} - 1, result[1][k + 1] == result[1][k] + {fpw('k + 1')})")),
-             extra_contracts={idx.lookup("common.threshold:get_label_threshold").fq: named_thr,
-                              idx.lookup(f"{OR}:DynamicObjectWithPerceptionResult.is_result_correct").fq: named_correct,
-                              idx.lookup("evaluation.metrics.detection.tp_metrics:TPMetricsAp.get_value").fq: named_weight})
+    # thresholds are any real numbers: configuration files spell them as floats or as whole numbers (numbers.Real is what the configuration check admits)
+    for tname, TT in (("float thresholds", TReal()), ("whole-number thresholds", TInt())):
+        mk_ap2 = lambda it, TT=TT: make_ap(it, num_ground_truth=TInt().fresh(it.ctx, "num_gt"), target_labels=Opt(TSList(AL)).fresh(it.ctx, "targets"),
+                                           matching_mode=TEnum(MM).fresh(it.ctx, "mode"), matching_threshold_list=Opt(TSList(TT)).fresh(it.ctx, "thresholds"),
+                                           objects_results_num=TInt().fresh(it.ctx, "n_results"))
+        P.verify(f"{AP}:Ap._calculate_tp_fp", name="Ap._calculate_tp_fp" + ("" if tname.startswith("float") else f"[{tname}]"),
+                 contract=Contract(f"{AP}:Ap._calculate_tp_fp", cut=False,
+                                   params={"self": mk_ap2, "tp_metrics": lambda it: it.ctx.new_cell("obj", {}, TPA), OBJ: TSList(RES)},
+                                   locals={"tp_list": RL, "fp_list": RL, "matching_threshold_": Opt(TT), "#comp1": TReal(), "#comp2": TReal()},
+                                   requires=E("some_results_and_their_number_recorded", f"{nO} > 0 and self.objects_results_num == {nO}"),
+                                   loops={1: LoopSpec(index="i", invariants=inv_tp)},
+                                   ensures=E("one_entry_per_rank", f"len(result[0]) == {nO} and len(result[1]) == {nO}",
+                                             "cumulative_tp_weight_of_the_correct_results_judged_at_the_threshold_of_the_ground_truths_label",
+                                             f"result[0][0] == {tpw('0')} and forall(k, 0, {nO} - 1, result[0][k + 1] == result[0][k] + {tpw('k + 1')})",
+                                             "incorrect_results_counted_from_the_first_rank", f"result[1][0] == {fpw('0')}",
+                                             "cumulative_count_of_the_incorrect_results", f"forall(k, 0, {nO} - 1, result[1][k + 1] == result[1][k] + {fpw('k + 1')})")),
+                 extra_contracts={idx.lookup("common.threshold:get_label_threshold").fq: mk_named_thr(TT),
+                                  idx.lookup(f"{OR}:DynamicObjectWithPerceptionResult.is_result_correct").fq: named_correct,
+                                  idx.lookup("evaluation.metrics.detection.tp_metrics:TPMetricsAp.get_value").fq: named_weight})
+
+
+def build(P):
+    idx = P.index
+    P.min_obligations = 60
+    APC = idx.lookup(f"{AP}:Ap")
+    RL = TSList(TReal())
+
+    def make_ap(it, **fields):
+        o = it.ctx.new_cell("obj", {}, APC)
+        it.ctx.cell(o).update(fields)
+        return o
+    # ---------------------------------------------------------------- precision / recall from the cumulative TP weights
+    P.verify(f"{AP}:Ap.get_precision_recall_list", name="Ap.get_precision_recall_list",
+             contract=Contract(
+                 f"{AP}:Ap.get_precision_recall_list", cut=False,
+                 params={"self": lambda it: make_ap(it, tp_list=RL.fresh(it.ctx, "tp_list"), num_ground_truth=TInt().fresh(it.ctx, "num_gt"))},
+                 locals={"precisions_list": RL, "recalls_list": RL},
+                 requires=E("ground_truth_count_not_negative", "self.num_ground_truth >= 0"),
+                 loops={1: LoopSpec(index="j", invariants=E(
+                     "lengths", "len(precisions_list) == len(self.tp_list) and len(recalls_list) == len(self.tp_list) and precisions_list is not recalls_list and "
+                                "not is_old(precisions_list) and not is_old(recalls_list)",
+                     "precision_so_far", "forall(k, 0, j, precisions_list[k] == self.tp_list[k] / (k + 1))",
+                     "recall_so_far", "forall(k, 0, j, recalls_list[k] == (self.tp_list[k] / self.num_ground_truth if self.num_ground_truth > 0 else 0))",
+                     "tp_list_untouched", "len(self.tp_list) == old(len(self.tp_list)) and forall(k, 0, len(self.tp_list), self.tp_list[k] == old(self.tp_list[k]))"))},
+                 ensures=E("one_point_per_rank", "len(result[0]) == len(self.tp_list) and len(result[1]) == len(self.tp_list)",
+                           "precision_is_cumulative_tp_over_rank", "forall(k, 0, len(self.tp_list), result[0][k] == self.tp_list[k] / (k + 1))",
+                           "recall_is_cumulative_tp_over_ground_truths", "forall(k, 0, len(self.tp_list), result[1][k] == (self.tp_list[k] / self.num_ground_truth if self.num_ground_truth > 0 else 0))")))
+    tp_fp_tasks(P)
     # ---------------------------------------------------------------- interpolation: maximum precision at any higher recall
     PL, RLs = "precision_list", "recall_list"
     MP, MR = "max_precision_list", "max_precision_recall_list"
